@@ -192,9 +192,36 @@ def restrict(t, decide):
         tt = restrict(t[1], decide)
         if is_const(tt):
             return restrict(t[2] if cval(tt) else t[3], decide)
+        d2 = decide(tt)
+        if d2 is not None:
+            return restrict(t[2] if d2 else t[3], decide)
         if tt[0] == 'not' and is_const(tt[1]):
             return restrict(t[3] if cval(tt[1]) else t[2], decide)
         return ('cond', tt, restrict(t[2], decide), restrict(t[3], decide))
+    if t[0] in ('and', 'or') and len(t) == 2 and isinstance(t[1], tuple) and t[1]:
+        # `a and b` / `a or b` with some operands settled - as values: `x or y` is x when x is true, `x and y` is x when x is false
+        from .sval import is_const, cval
+        stop_on = (t[0] == 'or')
+        rest, last = [], None
+        for x in t[1]:
+            x2 = restrict(x, decide)
+            d = bool(cval(x2)) if is_const(x2) else decide(x2)
+            last = x2
+            if d is None:
+                rest.append(x2)
+                continue
+            if d == stop_on:
+                if not rest:
+                    return x2           # the first operand that decides the whole
+                rest.append(x2)
+                break
+            # an operand that cannot decide the whole is skipped (unless it is the last one: then it is the value)
+        else:
+            if not rest:
+                return last
+            if last is not rest[-1]:
+                rest.append(last)
+        return rest[0] if len(rest) == 1 else (t[0], tuple(rest))
     if t[0] == 'not' and len(t) == 2:
         from .sval import is_const, cval, const
         x = restrict(t[1], decide)
@@ -255,7 +282,15 @@ def eq_decider(term, const_term, value):
     return decide
 
 
+def _truth(t):
+    """the term whose truthiness an atom asks about: bool(x) asks about x"""
+    while t[0] == 'call' and t[1] == 'builtins.bool' and len(t[3]) == 1:
+        t = t[3][0][1]
+    return t
+
+
 def _atoms(t, out):
+    t = _truth(t)
     if t[0] in ('and', 'or'):
         for x in t[1]:
             _atoms(x, out)
@@ -269,6 +304,7 @@ def _atoms(t, out):
 
 
 def _beval(t, val):
+    t = _truth(t)
     if t[0] == 'and':
         return all(_beval(x, val) for x in t[1])
     if t[0] == 'or':
